@@ -214,8 +214,19 @@ def oracle_cli(case):
     b0 = BpSeq.from_string(text)
     with open(path, "w") as f:
         if opts.get("dbn"):
+            # the file may spell the structure in a notation of its own (chosen by a fixed function of the case): the
+            # library's, the first-come-first-served one, or the library's with every bracket kind moved one kind up -
+            # all three denote the same pairs
             db = b0.dot_bracket
-            f.write((">strand\n" if opts.get("header") else "") + db.sequence + "\n" + db.structure + "\n")
+            structure = db.structure
+            variant = (len(seq) + 3 * len(pairs)) % 3
+            if variant == 1:
+                structure = b0.fcfs.structure
+            elif variant == 2 and not (set(structure) & {ssref.OPEN[-1], ssref.CLOSE[-1]}):
+                up = {c: ssref.OPEN[k + 1] for k, c in enumerate(ssref.OPEN[:-1])}
+                up.update({c: ssref.CLOSE[k + 1] for k, c in enumerate(ssref.CLOSE[:-1])})
+                structure = "".join(up.get(c, c) for c in structure)
+            f.write((">strand\n" if opts.get("header") else "") + db.sequence + "\n" + structure + "\n")
         else:
             f.write(text + "\n")
     argv = ["motif_extractor", "--dbn" if opts.get("dbn") else "--bpseq", path]
@@ -260,6 +271,19 @@ def oracle_cli(case):
     # the printed strands quote the dot-bracket the tool printed; compare structure-insensitively first
     if len(got) != len(want) or [g.split()[0:3] for g in got] != [w.split()[0:3] for w in want]:
         out.append(D("C07:cli:elements-differ-from-library", f"options {opts}: tool printed {got[:3]}, library gives {want[:3]}"))
+    # every printed strand quotes the sequence and the dot-bracket printed at the top of the same report
+    for g in got:
+        tok = g.split()
+        for q in range(1, len(tok) - 3, 4):
+            try:
+                first, last = int(tok[q]), int(tok[q + 1])
+            except ValueError:
+                out.append(D("C07:cli:element-line-unreadable", f"{g!r}"))
+                break
+            if tok[q + 2] != lines[1][first - 1:last] or tok[q + 3] != lines[2][first - 1:last]:
+                out.append(D("C07:cli:strand-text-is-not-a-slice-of-the-printed-dot-bracket",
+                             f"options {opts}: {tok[0]} strand {first}-{last} prints {tok[q + 2]!r} {tok[q + 3]!r}, the report's dot-bracket there reads {lines[1][first - 1:last]!r} {lines[2][first - 1:last]!r}"))
+                break
     sub = oracle((seq, cur))
     out += [D(d.sig.replace("C07:", "C07:cli-reduced:"), d.what) for d in sub]
     return out
